@@ -20,7 +20,7 @@ from .hmcmass import momentum_obligations
 
 FLOORS = {"accept-form": 5, "accept-orientation": 5, "accept-shortcut": 4, "temper": 8,
           "new-old-binding": 2, "proposal-symmetric": 4, "stretch": 3, "hmc-fresh-momentum": 1,
-          "momentum-samples-kinetic": 3, "reloaded-temperature": 1}
+          "momentum-samples-kinetic": 3, "reloaded-temperature": 1, "accept-paths": 5}
 
 OPAQUE = {"inv_temp", "n_parameters", "n_walkers", "posterior", "rng", "mass", "ES", "params",
           "directions", "max_attempts", "steps", "bounds", "process_proposal", "walker_positions",
@@ -40,6 +40,50 @@ def find_accept(fn):
                 if isinstance(n, ast.Compare) and len(n.ops) == 1 and (uses_draw(n.left) or uses_draw(n.comparators[0])):
                     hits.append((st, n))
     return hits
+
+
+def _negations_above(test, node):
+    """Number of `not` operators between the root of `test` and `node`."""
+    def walk(t, k):
+        if t is node:
+            return k
+        if isinstance(t, ast.UnaryOp) and isinstance(t.op, ast.Not):
+            return walk(t.operand, k + 1)
+        for c in ast.iter_child_nodes(t):
+            r = walk(c, k)
+            if r is not None:
+                return r
+        return None
+    r = walk(test, 0)
+    return r or 0
+
+
+def _loop_paths(body):
+    """Paths through a retry-loop body: [(conditions, how it ends)] with conditions = [(test node, truth)] and the end one of
+    'exit' (break / return: the proposal is accepted), 'retry' (falls off the end or `continue`: the proposal is dropped)."""
+    paths = [([], None)]
+    for st in body:
+        nxt = []
+        for conds, end in paths:
+            if end is not None:
+                nxt.append((conds, end))
+                continue
+            if isinstance(st, (ast.Break, ast.Return)):
+                nxt.append((conds, "exit"))
+            elif isinstance(st, ast.Continue):
+                nxt.append((conds, "retry"))
+            elif isinstance(st, ast.Raise):
+                nxt.append((conds, "raise"))
+            elif isinstance(st, ast.If):
+                for arm, truth in ((st.body, True), (st.orelse, False)):
+                    for c2, e2 in _loop_paths(arm):
+                        nxt.append((conds + [(st.test, truth)] + c2, e2))
+            else:
+                nxt.append((conds, None))
+        paths = nxt
+        if len(paths) > 64:
+            raise AnalysisError("retry loop has more than 64 paths")
+    return paths
 
 
 def has_temperature(prog, ci):
@@ -108,10 +152,16 @@ def run(prog, tier):
 
         # ---- orientation: accept edge taken when u < A (or <=); the edge leaves the retry loop
         body_breaks = any(isinstance(s, (ast.Break, ast.Return)) for s in ast.walk(ast.Module(body=if_stmt.body, type_ignores=[])))
-        ok_or = op in ("Lt", "LtE") and body_breaks
+        else_breaks = any(isinstance(s, (ast.Break, ast.Return)) for s in ast.walk(ast.Module(body=if_stmt.orelse, type_ignores=[])))
+        negated = _negations_above(if_stmt.test, cmp_node) % 2 == 1
+        lt = op in ("Lt", "LtE")
+        gt = op in ("Gt", "GtE")
+        # the test holds when (u < A) [plain] or when not (u < A) [negated]; the accept edge is the arm that leaves the retry loop
+        ok_or = (body_breaks and not else_breaks and ((lt and not negated) or (gt and negated))) or \
+                (else_breaks and not body_breaks and ((gt and not negated) or (lt and negated)))
         obs.append(struct_ob("accept-orientation", construct, ok_or,
                              f"the move must be accepted when uniform < A (accept edge = break / return out of the retry loop); "
-                             f"test is `{U(if_stmt.test)}` (normalised operator {op}, break in body: {body_breaks})",
+                             f"test is `{U(if_stmt.test)}` (normalised operator {op}, negated: {negated}, exit in body: {body_breaks}, exit in else: {else_breaks})",
                              rel, if_stmt.lineno, slots={"test": U(if_stmt.test)}))
 
         # ---- NEW, OLD
@@ -179,6 +229,43 @@ def run(prog, tier):
             want_J = R.const(0)
             what = "log A = NEW - OLD (symmetric proposal)"
         obs.append(formula_ob("accept-form", construct, J, want_J, rel, if_stmt.lineno, what=what))
+
+        # ---- every way through the retry loop: accepted through the test, accepted because A >= 1, or rejected by the test
+        if loop is not None:
+            why_p = []
+            for conds, end in _loop_paths(loop.body):
+                has_test = [(t, tr) for t, tr in conds if any(x is cmp_node for x in ast.walk(t))]
+                if end == "exit" and not has_test:
+                    # an unconditional accept: one of its conditions must say A >= 1
+                    good = False
+                    for t, tr in conds:
+                        k = 0
+                        while isinstance(t, ast.UnaryOp) and isinstance(t.op, ast.Not):
+                            t, k = t.operand, k + 1
+                        truth = tr if k % 2 == 0 else not tr
+                        if isinstance(t, ast.Compare) and len(t.ops) == 1:
+                            try:
+                                l_ = ex.eval(t.left, env)
+                                r__ = ex.eval(t.comparators[0], env)
+                            except Unsupported:
+                                continue
+                            if not (isinstance(l_, R) and isinstance(r__, R)):
+                                continue
+                            o_ = type(t.ops[0]).__name__
+                            if not truth:
+                                o_ = {"Gt": "LtE", "GtE": "Lt", "Lt": "GtE", "LtE": "Gt"}.get(o_, o_)
+                            d_ = (l_ - r__) if o_ in ("Gt", "GtE") else (r__ - l_) if o_ in ("Lt", "LtE") else None
+                            if d_ is not None and (d_.eq(E) or (d_ + 1).eq(A) or d_.eq(A - 1)):
+                                good = True
+                    if not good:
+                        why_p.append(f"a proposal is accepted without the test on the path {[('' if tr else 'not ') + U(t)[:50] for t, tr in conds]}, "
+                                     f"whose conditions do not imply A >= 1")
+                elif end in ("retry", None) and not has_test:
+                    why_p.append(f"a proposal is dropped without the accept test on the path {[('' if tr else 'not ') + U(t)[:50] for t, tr in conds]} "
+                                 f"(only a proposal that failed uniform < A may be rejected)")
+            obs.append(struct_ob("accept-paths", construct, not why_p,
+                                 "every path through the retry loop must end in: accepted by the test, accepted because A >= 1, or rejected "
+                                 "by the test; " + "; ".join(why_p[:2]), rel, loop.lineno, slots={"paths": len(_loop_paths(loop.body))}))
 
         # ---- shortcut accepts imply A >= 1
         shortcut = None
